@@ -17,6 +17,8 @@
 //   returns_in_func  rendered operands of every return statement in `func`       : List String
 //   strings_in_var   all string literals in the initialiser of package-level var `ident` (e.g. the
 //                    keys of a map literal), source order                         : List String
+//   struct_fields    fields of the package-level struct type `ident`, rendered "names type", source
+//                    order (an added field, e.g. a cache on a long-lived object, breaks the tie) : List String
 //   lines_matching   any text file (e.g. Python source): trimmed lines matching the Go regexp
 //                    given in `ident`, file order                                 : List String
 //   skeleton_in_func control skeleton of `func` (calls filtered by `filter`, if/else/for/case/func
@@ -506,6 +508,28 @@ func main() {
 				die("fact %s: pattern of %s is not a constant string", fc.Name, fc.Ident)
 			}
 			fmt.Fprintf(&b, "def %s : String := %s\n\n", fc.Name, leanString(constant.StringVal(cv)))
+		case "struct_fields":
+			var st *ast.StructType
+			ast.Inspect(f, func(n ast.Node) bool {
+				if ts, ok := n.(*ast.TypeSpec); ok && ts.Name.Name == fc.Ident {
+					if x, ok := ts.Type.(*ast.StructType); ok {
+						st = x
+					}
+				}
+				return true
+			})
+			if st == nil {
+				die("fact %s: struct type %s not found in %s", fc.Name, fc.Ident, fc.File)
+			}
+			var ss []string
+			for _, fld := range st.Fields.List {
+				var names []string
+				for _, nm := range fld.Names {
+					names = append(names, nm.Name)
+				}
+				ss = append(ss, strings.TrimSpace(strings.Join(names, ",")+" "+render(fset, fld.Type)))
+			}
+			fmt.Fprintf(&b, "def %s : List String :=\n  %s\n\n", fc.Name, leanStringList(ss))
 		case "strings_in_var":
 			v := findValue(f, fc.Ident)
 			if v == nil {
